@@ -76,6 +76,12 @@ type Ctx struct {
 	resolved bool
 	finished bool
 
+	// delivered is set once an outcome has been put on Err. Both loops, the
+	// cancel timer and Write can each try to resolve the same Ctx; only the
+	// first gets through, so a caller that has been told the request failed is
+	// not told afterwards that it succeeded, or the other way round.
+	delivered bool
+
 	// timer is the cancel timer, kept with the Ctx so that reusing one does not
 	// mean allocating a timer and a closure per request.
 	timer *time.Timer
@@ -138,9 +144,10 @@ func (ctx *Ctx) markFinished() {
 func (ctx *Ctx) resolve(err error) {
 	ctx.resLck.Lock()
 
-	if !ctx.resolved {
+	if !ctx.resolved && !ctx.delivered {
 		select {
 		case ctx.Err <- err:
+			ctx.delivered = true
 		default:
 		}
 	}
@@ -210,6 +217,7 @@ func acquireCtx(req *fasthttp.Request, res *fasthttp.Response) *Ctx {
 	ctx.gotHeaders = false
 	ctx.resolved = false
 	ctx.finished = false
+	ctx.delivered = false
 	ctx.armed = false
 
 	ctx.conn.Store(nil)
